@@ -161,7 +161,9 @@ def run(ctx):
     # ---------------------------------------------------------------- R5 the size a transforming macro reports is the inner size through the unit ratio (shared with C10.R1/R2)
     from . import C10
     C10.check_macros(ctx, ("Bitwise", "Bytewise", "ByteSwapped", "BitsSwapped"), "C05.R5", "C05.R5", "C05.R5")
-    ctx.floor("C05.R5", 12)
+    from . import C15
+    C15.length_preserving(ctx, "C05.R5")      # ProcessXor / ProcessRotateLeft report the inner size: the transform must keep the byte count
+    ctx.floor("C05.R5", 16)
 
     # R2 is produced by the position algebra
     try:
